@@ -1,13 +1,16 @@
 """C03: a conflict report is a truthful, self-contained proof of unsatisfiability."""
 import vlib
-from props import solverstream as ss, tracecheck as tc
+from props import solverstream as ss, tracecheck as tc, antie
 
 THEOREMS = ["C03_truthful", "C03_reachable", "C03_graph_refutes", "C03_split_sound", "C03_core_unsat",
-            "C03_built_graph_truthful", "C03_graph_of_checked_db_truthful"]
+            "C03_built_graph_truthful", "C03_graph_of_checked_db_truthful",
+            "C03_analyze_unsolvable_refutes", "C03_checked_conflict_is_refutation"]
 CHECKER = ("coqc Props/C03.v + Print Assumptions; harness solve_cases: Conflict::graph of every Unsolvable (public API) -> extracted "
            "truthfulb / reachableb / refutesb; hook dump -> extracted check_core on the clause ids reported in the Conflict; "
            "hook dump + clause ids -> extracted build_graph (model of Conflict::graph) must equal the public graph node for node and "
-           "edge for edge; the dumped database must consist of facts (facts_ok: hypothesis of C03_graph_of_checked_db_truthful)")
+           "edge for edge; the dumped database must consist of facts (facts_ok: hypothesis of C03_graph_of_checked_db_truthful); hook log -> "
+           "extracted check_unsolvable: the clause ids in the Conflict must equal, in order, those of the analyze_unsolvable model "
+           "replayed on the logged trail, with the side conditions of C03_analyze_unsolvable_refutes")
 
 
 def tok_graph(g):
@@ -67,7 +70,13 @@ def run(res, tier, seed, replay):
             lines.append(f"gbuild b{i} " + vlib.toks(vlib.tok_universe(r["case"]["u"]), db, vlib.tok_list(d["core"]), tok_graph(c["graph"])))
     out = vlib.oracle(lines)
     tc.annotate(recs)
+    antie.annotate(recs)
     for r in recs:
+        if ss.outcome_kind(r["obs"]["outcome"]) == "unsat" and not (antie.ok(r) and antie.ok_unsolv(r)):
+            res.tie_break(f"conflict-report correspondence no longer checks in {r['stream']}: the clauses in the Conflict "
+                          f"{(r['obs'].get('dump') or {}).get('core')} differ from those of the analyze_unsolvable model, or a side condition of "
+                          f"C03_analyze_unsolvable_refutes / C03_checked_conflict_is_refutation fails: {r.get('unsolv')} {r.get('an')}",
+                          dict(tc.trace_replay(r), unsolv=r.get("unsolv"), analyses=r.get("an")))
         t = r.get("trace")
         if t and ss.outcome_kind(r["obs"]["outcome"]) == "unsat" and not t.get("db"):
             res.tie_break(f"the dumped clause database of an Unsolvable run is not made of facts and certified learnt clauses "
@@ -112,5 +121,6 @@ def run(res, tier, seed, replay):
     res.rule = ("every Unsolvable outcome of the conflict/dense/small streams (all feature masks): the public ConflictGraph is judged edge "
                 "by edge, for reachability and for unsatisfiability of its displayed facts; the reported clause ids are certified through "
                 "RUP-checked learnt clauses; non-trivial = graph with >= 4 nodes")
+    res.extra.update(antie.stats(recs))
     res.extra.update({"graphs_compared_with_build_model": nbuilt, "graphs_checked": ngraph, "cores_checked": ncore, "cores_of_runs_with_learnt_clauses": with_learnt, "hangs": len(hangs)})
     return res.finish(CHECKER, vlib.TRUSTED_BASE, ["display strings are not part of the graph; message text is C04/C06's business"])
